@@ -215,7 +215,25 @@ def check_random_roundtrips(rng, counters):
                 vio.append({'key': 'udf-ts:roundtrip', 'detail': 'parse/record of %s gives %s' % (ub.hex(), u.record().hex())})
         except Exception as e:
             vio.append({'key': 'udf-ts:parse-raises:%s' % type(e).__name__, 'detail': '%s: %s' % (ub.hex(), e)})
-        counters['roundtrips_random'] = counters.get('roundtrips_random', 0) + 3
+        # a Rock Ridge TF entry as another producer may have written it: any subset of the seven
+        # stamps, in the 7-byte or in the 17-byte form
+        from pycdlib import rockridge
+        flags = rng.choice([0x0e, 0x0f, 0x07, 0x8e, 0x8f, 0x01, 0x7f, 0xff, 0x0a, 0x82, rng.randint(1, 255)])
+        n_ = bin(flags & 0x7f).count('1')
+        if flags & 0x80:
+            stamps = b''.join(('%04d%02d%02d%02d%02d%02d%02d' % (rng.randint(1970, 2099), rng.randint(1, 12), rng.randint(1, 28), rng.randint(0, 23), rng.randint(0, 59), rng.randint(0, 59), rng.randint(0, 99))).encode()
+                              + struct.pack('=b', rng.randint(-48, 52)) for _k in range(n_))
+        else:
+            stamps = b''.join(bytes([rng.randint(70, 199), rng.randint(1, 12), rng.randint(1, 28), rng.randint(0, 23), rng.randint(0, 59), rng.randint(0, 59), rng.randint(0, 255)]) for _k in range(n_))
+        tb = b'TF' + bytes([5 + len(stamps), 1, flags]) + stamps
+        tf = rockridge.RRTFRecord()
+        try:
+            tf.parse(tb)
+            if tf.record() != tb:
+                vio.append({'key': 'tf:roundtrip:foreign-form', 'detail': 'parse/record of TF flags %#04x (%d bytes) gives %d bytes %s' % (flags, len(tb), len(tf.record()), tf.record()[:12].hex())})
+        except Exception as e:
+            vio.append({'key': 'tf:parse-raises:%s' % type(e).__name__, 'detail': 'flags %#04x: %s' % (flags, e)})
+        counters['roundtrips_random'] = counters.get('roundtrips_random', 0) + 4
     return vio
 
 
